@@ -2,9 +2,10 @@
 target type, as `(ty T)` and as a value of that type) x {SimpleGarnishData, BasicGarnishData} x host {absent, decline,
 accept}: real `type_cast` (harness) against `castOp` (lean/Garnish/Abs/Casts.lean, through Driver/OpDrv.lean).
 
-  python3 tools/gen/castgen.py [--drv PATH] [--hazards] [--show N] [--stores simple,basic] [--modes decline]
+  python3 tools/gen/castgen.py [--drv PATH] [--hazards] [--random N SEED] [--show N] [--stores simple,basic] [--modes decline]
 
 prints statistics, every skip reason with its count, and the disagreements (grouped by left type -> target type).
+`--random N SEED` replaces the matrix by N random nested left operands (both stores each).
 `--hazards` runs opgen.CAST_HAZARDS (reproducers that hang / allocate without bound) on the implementation only.
 """
 import os
@@ -18,6 +19,56 @@ from gen import opgen
 
 def gen(stores=None, modes=None):
     return opgen.gen_cases(instrs_bin=['ApplyType'], instrs_un=[], stores=stores or opgen.STORES, modes=modes or opgen.MODES)
+
+
+def rand_value(rnd, depth):
+    """random value term: small ranges only (no huge allocations), every constructor"""
+    atoms = ['U', 'T', 'F', lambda: '(i %d)' % rnd.choice([0, 1, 2, 5, -1, -3, 97, 255, 256, 1000, 2147483647, -2147483648]),
+             lambda: opgen.fb(rnd.choice([0.0, 1.5, -0.5, 2.0, 3.75])), lambda: '(c %d)' % rnd.choice([97, 58, 48, 233, 8364, 128512]),
+             lambda: '(b %d)' % rnd.choice([0, 7, 97, 255]), lambda: '(s %d)' % rnd.choice([0, 5, 11, 2 ** 64 - 1]),
+             lambda: '(e %d)' % rnd.randrange(3), lambda: '(x %d)' % rnd.randrange(4),
+             lambda: '(ty %s)' % rnd.choice(opgen.CAST_TARGET_TYPES),
+             lambda: '(cl' + ''.join(' %d' % rnd.choice([97, 98, 58, 49, 50, 45, 43, 32, 233, 8364]) for _ in range(rnd.randrange(5))) + ')',
+             lambda: '(bl' + ''.join(' %d' % rnd.randrange(256) for _ in range(rnd.randrange(4))) + ')',
+             lambda: '(syl' + ''.join(' (s %d)' % rnd.randrange(20) for _ in range(2 + rnd.randrange(2))) + ')']
+    def small_range():
+        k = rnd.random()
+        if k < 0.8:
+            return '(r (i %d) (i %d))' % (rnd.randrange(-2, 5), rnd.randrange(-2, 7))
+        if k < 0.9:
+            return '(r %s %s)' % (opgen.fb(rnd.choice([0.0, 0.5, 1.0, 1.5])), opgen.fb(rnd.choice([0.5, 2.0, 2.5, 3.0])))
+        return '(r %s %s)' % (rand_value(rnd, 0), rand_value(rnd, 0))
+    if depth <= 0 or rnd.random() < 0.3:
+        a = rnd.choice(atoms)
+        return a if isinstance(a, str) else a()
+    k = rnd.randrange(7)
+    sub = lambda: rand_value(rnd, depth - 1)
+    if k == 0:
+        return '(p %s %s)' % (sub(), sub())
+    if k == 1:
+        return '(l' + ''.join(' ' + sub() for _ in range(rnd.randrange(5))) + ')'
+    if k == 2:
+        return '(cat %s %s)' % (sub(), sub())
+    if k == 3:
+        return small_range()
+    if k == 4:
+        return '(sl %s %s)' % (sub(), small_range() if rnd.random() < 0.9 else sub())
+    if k == 5:
+        return '(pa %s %s)' % (sub(), sub())
+    return '(l' + ''.join(' ' + sub() for _ in range(1 + rnd.randrange(3))) + ')'
+
+
+def gen_random(n, seed):
+    import random
+    rnd = random.Random(seed)
+    ts = opgen.cast_targets()
+    cases = []
+    for _ in range(n):
+        a = rand_value(rnd, rnd.randrange(1, 4))
+        b = rnd.choice(ts) if rnd.random() < 0.8 else rnd.choice(['(ty List)', '(ty CharList)', '(ty Symbol)', '(ty ByteList)'])
+        for st in opgen.STORES:
+            cases.append(['OP', str(len(cases)), st, 'ApplyType', rnd.choice(opgen.MODES), a, b])
+    return cases
 
 
 def hazards():
@@ -44,6 +95,7 @@ def main(argv):
     show = 40
     stores = modes = None
     do_haz = False
+    rand = None
     i = 0
     while i < len(argv):
         if argv[i] == '--drv':
@@ -56,6 +108,8 @@ def main(argv):
             modes = argv[i + 1].split(','); i += 1
         elif argv[i] == '--hazards':
             do_haz = True
+        elif argv[i] == '--random':
+            rand = (int(argv[i + 1]), int(argv[i + 2])); i += 2
         i += 1
     if do_haz:
         hz = hazards()
@@ -63,7 +117,7 @@ def main(argv):
         for c in hz:
             print('\t'.join(c), '=>', impl.get(c[1]))
         return 0
-    cases = gen(stores, modes)
+    cases = gen_random(*rand) if rand else gen(stores, modes)
     impl = vlib.run_impl(cases, 'cast', per_case_s=5.0)
     model = vlib.run_sharded(drv, cases, 'cast.model', supervised=False)
     skips = {}
@@ -94,7 +148,7 @@ def main(argv):
             print('   ', '\t'.join(c), '=>', ri)
     groups = {}
     for c, ri, rm in dis:
-        g = (opgen.type_of_term(c[5]), opgen.target_type_of_term(c[6]), c[2])
+        g = (opgen.type_of_term(c[5]) or c[5].split(' ')[0], opgen.target_type_of_term(c[6]), c[2])
         groups.setdefault(g, []).append((c, ri, rm))
     for g, lst in sorted(groups.items(), key=lambda x: str(x[0])):
         print(f'DISAGREE {g}: {len(lst)}')
@@ -106,7 +160,7 @@ def main(argv):
     for (mode, a, b), d in sd:
         if mode != 'decline' and (modes is None or 'decline' in modes):
             continue
-        g2.setdefault((opgen.type_of_term(a), opgen.target_type_of_term(b)), []).append((a, b, d))
+        g2.setdefault((opgen.type_of_term(a) or a.split(' ')[0], opgen.target_type_of_term(b)), []).append((a, b, d))
     for g, lst in sorted(g2.items(), key=lambda x: str(x[0])):
         a, b, d = lst[0]
         print(f'  STORES-DIFFER {g}: {len(lst)}   e.g. {a} ~# {b}: simple={d.get("simple")!r} basic={d.get("basic")!r}')
